@@ -22,6 +22,8 @@ var (
 	flagOut     = flag.String("out", "", "work directory for SMT files")
 	flagV       = flag.Bool("v", false, "verbose")
 	flagOnly    = flag.String("only", "", "substring filter on obligation names")
+	flagReplayD = flag.String("replaydir", "", "directory for replay files")
+	flagNoRepl  = flag.Bool("noreplay", false, "do not replay models on the real code")
 	flagFile    = flag.String("file", "", "replay file")
 	flagNoEvid  = flag.Bool("noevidence", false, "do not write the evidence file")
 )
@@ -194,6 +196,9 @@ func cmdCheck() int {
 	}
 	os.RemoveAll(outDir)
 	replayDir := filepath.Join(*flagVerif, "replays", prop)
+	if *flagReplayD != "" {
+		replayDir = *flagReplayD
+	}
 	os.RemoveAll(replayDir)
 
 	e, err := loadEngine()
@@ -396,7 +401,9 @@ func cmdCheck() int {
 	}
 	for _, r := range failed {
 		name := r.Obl.Name
-		tryReplay(e, r)
+		if !*flagNoRepl {
+			tryReplay(e, r)
+		}
 		report(name, "obligation not discharged: "+r.Status, r)
 	}
 	if nObl == 0 && len(missing) == 0 {
